@@ -104,6 +104,15 @@ class Opaque:
         return 'Opaque(%s)' % self.what
 
 
+class RuneStr:
+    """string(x) for an integer x: the UTF-8 encoding of the code point x (kept symbolic)"""
+    __slots__ = ('x', 'bits')
+
+    def __init__(self, x, bits):
+        self.x = x
+        self.bits = bits
+
+
 class Union:
     __slots__ = ('alts',)
 
@@ -1277,6 +1286,13 @@ class Executor:
         if tk == 'string' or fk == 'string':
             if isinstance(x, str) and tk == 'slice':
                 raise Unsupported('string->[]byte')
+            if fk == 'int' and tk == 'string':
+                if isinstance(x, int):
+                    try:
+                        return chr(x)
+                    except Exception:
+                        return '\ufffd'
+                return RuneStr(x, ft['bits'])
             return Opaque('string-conv')
         if tk == 'unsafeptr' or fk == 'unsafeptr':
             return x
@@ -2319,6 +2335,39 @@ def install_default_intrinsics(ex):
         return (SliceV(Ptr(oid, ()), src.off, src.len, src.cap), None), st
     I['io/ioutil.ReadFile'] = readfile
     I['os.ReadFile'] = readfile
+
+    def io_writestring(ex, st, args, pos):
+        w, sv = args
+        def call_write(state, byts):
+            oid = ex.new_obj(state, tuple(byts), ex.p.arrtype('uint8', len(byts)))
+            sl = SliceV(Ptr(oid, ()), 0, len(byts), len(byts))
+            r, s2 = ex.invoke('Write', w, [sl], state, pos)
+            if isinstance(r, tuple) and isinstance(r[0], int):
+                r = (z3.BitVecVal(r[0], 64),) + tuple(r[1:])   # (n int, err): keep n mergeable across the two encodings
+            return r, s2
+        if isinstance(sv, str):
+            return call_write(st, list(sv.encode('utf-8')))
+        if isinstance(sv, RuneStr) and sv.bits == 8:
+            x = sv.x
+            g = z3.ULT(x, z3.BitVecVal(0x80, 8))
+            outs = []
+            s1 = st.fork()
+            s1.assume(g)
+            if not s1.dead() and ex.feasible(st, g):
+                r, s1b = call_write(s1, [x])
+                if s1b is not None:
+                    outs.append((s1b, r))
+            s2 = st.fork()
+            s2.assume(bnot(g))
+            if not s2.dead() and ex.feasible(st, bnot(g)):
+                b0 = simp(z3.BitVecVal(0xc0, 8) | z3.LShR(x, 6))
+                b1 = simp(z3.BitVecVal(0x80, 8) | (x & 0x3f))
+                r, s2b = call_write(s2, [b0, b1])
+                if s2b is not None:
+                    outs.append((s2b, r))
+            return ex.merge_returns(outs, None)
+        raise Unsupported('io.WriteString of an unmodelled string')
+    I['io.WriteString'] = io_writestring
 
     def vmark(ex, st, args, pos):
         ex.mark = const_name(args[0])
